@@ -83,6 +83,27 @@ def paths_joint(ret, fin):
     return out
 
 
+def cdd_gate(ctx, R):
+    """can_declare_draw: every `true` return is behind the guard "the game has no result" (also C11.R6)"""
+    s = summary(ctx, 'game::Game::can_declare_draw', R)
+    if s is not None:
+        body = s.body
+        bad = 0
+        trues = 0
+        for st in return_sites(s):
+            if norm(st['value']) != ('int', 0, 'bool'):       # `return true` or a boolean tail expression that may be true
+                trues += 1
+                gs = guards(s, st['blk'])
+                if not any(game_open(g['cond'], g['vals']) for g in gs):
+                    bad += 1
+        if trues == 0:
+            ctx.inconclusive(R, 'can_declare_draw: no `return true` found')
+        elif bad:
+            ctx.violation(R, 'game::Game::can_declare_draw:unguarded-true', 'can_declare_draw can return true although the game has a result', where(body))
+        else:
+            ctx.ok(R, 'can_declare_draw: all %d `true` returns are behind `result().is_some() == false`' % trues, where(body))
+
+
 def r12(ctx):
     n = 0
     for key, (variant, has_arg) in MUTATORS.items():
@@ -163,24 +184,7 @@ def r12(ctx):
             else:
                 ctx.violation('C10.R8', key + ':variant', '%s pushes %s, expected Action::%s%s' % (
                     key, sh(v, 100), variant, '(parameter)' if has_arg else ''), where(s.body, c['line']))
-    # can_declare_draw: every `true` return is behind the guard
-    s = summary(ctx, 'game::Game::can_declare_draw', 'C10.R1')
-    if s is not None:
-        body = s.body
-        bad = 0
-        trues = 0
-        for st in return_sites(s):
-            if norm(st['value']) != ('int', 0, 'bool'):       # `return true` or a boolean tail expression that may be true
-                trues += 1
-                gs = guards(s, st['blk'])
-                if not any(game_open(g['cond'], g['vals']) for g in gs):
-                    bad += 1
-        if trues == 0:
-            ctx.inconclusive('C10.R1', 'can_declare_draw: no `return true` found')
-        elif bad:
-            ctx.violation('C10.R1', 'game::Game::can_declare_draw:unguarded-true', 'can_declare_draw can return true although the game has a result', where(body))
-        else:
-            ctx.ok('C10.R1', 'can_declare_draw: all %d `true` returns are behind `result().is_some() == false`' % trues, where(body))
+    cdd_gate(ctx, 'C10.R1')
     ctx.floor('C10.R1', 'Game mutators', n, 5)
 
 
@@ -296,6 +300,32 @@ def action_const(e):
     return None
 
 
+def replay_boards(ctx, s):
+    """loop-carried Board values of s that are the exact replay of the action log: start_pos advanced by make_move_new over
+    exactly the MakeMove actions in log order (the body of current_position, wherever it is written out)"""
+    out = []
+    d = ctx.facts().enum_discr(ACT, 'MakeMove')
+    for l in for_loops(s):
+        src = norm(l['source']) if l['source'] is not None else None
+        if src is None or match(call('core::slice::<impl [T]>::iter', MOVES), src) is None or l['pre'] is None:
+            continue
+        if break_exits(s, l):
+            continue
+        E = norm(l['elem'])
+        for root, init in s.exit[l['pre']].items():
+            if norm(init) != ('field', SELF, 'start_pos'):
+                continue
+            latch = loop_latch_value(s, l, root)
+            if latch is None:
+                continue
+            cur = ('loop', l['header'], root)
+            for EE in (E, ('mem', ('h', E))):
+                step = call('board::Board::make_move_new', cur, ('field', ('variant', EE, 'MakeMove'), '0'))
+                if match(('ite', ('discr', EE), ((d, step), ('otherwise', cur))), norm(latch)) is not None:
+                    out.append(cur)
+    return out
+
+
 def r4(ctx, rule='C10.R4', only_status=False):
     R = rule
     s = summary(ctx, 'game::Game::result', R)
@@ -305,6 +335,12 @@ def r4(ctx, rule='C10.R4', only_status=False):
     f = ctx.facts()
     r = inline_private(ctx, s.ret)       # e.g. a private `fn last_action(&self) -> Option<&Action>`
     status = ('discr', call('board::Board::status', call('game::Game::current_position', ('param', 1))))
+    # the current position may also be replayed inside result() itself
+    CUR = [call('game::Game::current_position', ('param', 1))] + replay_boards(ctx, s)
+    is_status = lambda c: c[0] == 'discr' and c[1][0] == 'call' and c[1][1] == 'board::Board::status' and c[1][2] and c[1][2][0] in CUR
+    def side_of(x):
+        """is x the side to move of the current position?"""
+        return match(STM, x) is not None or (x[0] == 'call' and x[1] == 'board::Board::side_to_move' and x[2] and x[2][0] in CUR)
     LEN = call('alloc::vec::Vec::<T, A>::len', MOVES)
     LAST = ('index', MOVES, ('bin', 'Sub', LEN, ('int', 1, 'usize')))
     STM = call('game::Game::side_to_move', ('param', 1))
@@ -321,8 +357,14 @@ def r4(ctx, rule='C10.R4', only_status=False):
         for stm in ('White', 'Black'):
             for last in LASTS:
                 def decide(c, vals):
-                    if match(status, c) is not None:
+                    if match(status, c) is not None or is_status(c):
                         return f.enum_discr('board::BoardStatus', st_)
+                    if c[0] == 'call' and 'PartialEq' in c[1] and (c[1].endswith('::eq') or c[1].endswith('::ne')) and len(c[2]) == 2 and 'Color' in str(c[3]):
+                        for x_, y_ in ((c[2][0], c[2][1]), (c[2][1], c[2][0])):
+                            if side_of(x_) and y_[0] == 'enum' and match(STM, x_) is None:
+                                return as_bool((stm == y_[2]) == c[1].endswith('::eq'), vals)
+                    if c[0] == 'discr' and side_of(c[1]) and match(STM, c[1]) is None:
+                        return f.enum_discr('color::Color', stm)
                     if match(('bin', 'Eq', LEN, ('int', 0, 'usize')), c) is not None or match(call('alloc::vec::Vec::<T, A>::is_empty', MOVES), c) is not None:
                         return as_bool(last is None, vals)
                     if match(('bin', 'Ne', LEN, ('int', 0, 'usize')), c) is not None or match(('bin', 'Gt', LEN, ('int', 0, 'usize')), c) is not None:
@@ -361,6 +403,18 @@ def r4(ctx, rule='C10.R4', only_status=False):
                 table[(st_, stm, last)] = [none if (l[0] == 'call' and l[1].endswith('::from_residual') and 'Option' in l[1]) else l
                                            for l in eval_tree(r, decide)]
     if unknown:
+        # Who mated whom must depend on whose turn it is.  If, with the status fixed at Checkmate and the side to move fixed,
+        # both winners are still reachable, the winner is decided by the foreign condition; when that condition reads no
+        # side to move at all (neither the start position's nor a board's) it cannot name the right side for both colours.
+        mentions_side = lambda c: any(isinstance(x, tuple) and x and ((x[0] == 'field' and x[2] == 'side_to_move') or
+                                                                      (x[0] == 'call' and x[1].endswith('::side_to_move')))
+                                      for x in walk(inline_private(ctx, c)))
+        both = any({res('BlackCheckmates'), res('WhiteCheckmates')} <= set(leaves) for (st_, stm, last), leaves in table.items() if st_ == 'Checkmate')
+        blind = [c for c in unknown if not mentions_side(c)]
+        if both and blind and len(blind) == len(unknown) and not only_status:
+            ctx.violation(R, 'game::Game::result:winner', 'on checkmate the winner is decided by `%s`, which does not depend on the side to move: '
+                          'it cannot be right for both colours of the side that starts' % sh(blind[0], 160), w)
+            return
         ctx.inconclusive(R, 'result() tests something unexpected: ' + sh(unknown[0], 200))
         return
     bad = []
